@@ -346,7 +346,7 @@ Qed.
 Lemma step_closed c s e : closed (fst (step c s e)) = closed s || has_close (snd (step c s e)).
 Proof.
   unfold step. destruct (closed s) eqn:Hc; [cbn [fst snd]; rewrite Hc; reflexivity|].
-  destruct e as [t|g t|g|t ok|t ok|t]; cbn [fst snd]; try (cbn; exact Hc).
+  destruct e as [t|g t|g|t ok|t ok|t|t]; cbn [fst snd]; try (cbn; exact Hc).
   - unfold pong_cb. destruct (token (notify c s t) =? g); cbn; exact Hc.
   - unfold pong_cb. destruct (token s =? g); cbn; exact Hc.
   - rewrite check_closed, Hc. reflexivity.
